@@ -165,6 +165,10 @@ func c14Accesses(r *Run, rep *core.Report, reach map[*ssa.Function]bool) {
 					return
 				}
 				cons := fmt.Sprintf("%s plain read of %s", fn(f), a.Key())
+				if ownerOnlyWord(r, a, f, reach) {
+					emit(true, "C14.A2", cons+" (owner-only word)", pos, "word touched only by the resize owner, whose turns are ordered by the resize flag", "")
+					return
+				}
 				if fi := unpublishedAt(r, f, x.X, in, 0); fi.OK {
 					nPlainFresh++
 					emit(true, "C14.A2", cons+" (unpublished)", pos, "object not yet published", "")
@@ -184,6 +188,10 @@ func c14Accesses(r *Run, rep *core.Report, reach map[*ssa.Function]bool) {
 					return
 				}
 				fi := unpublishedAt(r, f, x.Addr, in, 0)
+				if shared && !fi.OK && ownerOnlyWord(r, a, f, reach) {
+					emit(true, "C14.A1", fmt.Sprintf("%s plain write of %s (owner-only word)", fn(f), a.Key()), pos, "word touched only by the resize owner, whose turns are ordered by the resize flag; no other function reachable from the public API accesses it", "")
+					return
+				}
 				if shared {
 					cons := fmt.Sprintf("%s plain write of %s", fn(f), a.Key())
 					if fi.OK {
@@ -628,4 +636,66 @@ func offset386(sizes types.Sizes, v ssa.Value) (int64, bool, string) {
 		}
 		return off, true, ""
 	}
+}
+
+// ownerOnlyWord: a statistics word of the map header (not the table pointer, not the resize flag) that, among the
+// functions reachable from the public API, is accessed only inside the resize function (and the helpers it
+// delegates to): resize owners run one at a time, ordered by the CAS / store pair on the resize flag, so plain
+// accesses there race with nothing the public API can run.
+func ownerOnlyWord(r *Run, a core.AddrPath, f *ssa.Function, reach map[*ssa.Function]bool) bool {
+	for _, mm := range r.M.Maps {
+		if a.Owner != mm.Name && a.Owner != mm.StateOwner {
+			continue
+		}
+		if a.Field == mm.TableF || a.Field == mm.FlagF || a.Field == "" {
+			return false
+		}
+		inOwner := func(g *ssa.Function) bool {
+			for g.Parent() != nil {
+				g = g.Parent()
+			}
+			for _, m2 := range r.M.Maps {
+				if g == m2.Resize {
+					return true
+				}
+				for _, h := range m2.ResizeHelpers {
+					if g == h {
+						return true
+					}
+				}
+			}
+			return false
+		}
+		if !inOwner(f) {
+			return false
+		}
+		only := true
+		for _, g := range r.P.Funcs {
+			if !reach[g] || inOwner(g) {
+				continue
+			}
+			core.Instrs(g, func(in ssa.Instruction) {
+				var addr ssa.Value
+				switch x := in.(type) {
+				case *ssa.UnOp:
+					if x.Op.String() == "*" {
+						addr = x.X
+					}
+				case *ssa.Store:
+					addr = x.Addr
+				case ssa.CallInstruction:
+					if _, ad, ok := core.AtomicOp(x); ok {
+						addr = ad
+					}
+				}
+				if addr != nil {
+					if b := core.Addr(addr); b.Owner == a.Owner && b.Field == a.Field {
+						only = false
+					}
+				}
+			})
+		}
+		return only
+	}
+	return false
 }
